@@ -80,6 +80,8 @@ class StageTracer:
         self.fired = None
         self.compute_done = False
         self.stage_names = []
+        self.reanchored = False
+        self.outer_frame = None
 
     # -- fault --------------------------------------------------------------------
     def _site(self, frame):
@@ -101,10 +103,15 @@ class StageTracer:
         }
         self.fired = info
         kind = self.fault["kind"]
+        exc = self.fault.get("exc")
         self.fault = None
         if kind == "die":
             os.write(self.report_fd, (json.dumps({"status": "died", **info}) + "\n").encode())
             os._exit(137)  # no finally, no atexit, no flush: what SIGKILL leaves behind
+        # what a stage raises need not be an Exception: Ctrl-C, sys.exit() in a plug-in and an
+        # exhausted heap all leave compute() as BaseException / MemoryError
+        if exc in ("KeyboardInterrupt", "SystemExit", "MemoryError"):
+            raise {"KeyboardInterrupt": KeyboardInterrupt, "SystemExit": SystemExit, "MemoryError": MemoryError}[exc](f"injected stage failure at {info['site']}")
         raise InjectedStageFault(f"injected stage failure at {info['site']}")
 
     # -- boundaries ---------------------------------------------------------------
@@ -145,7 +152,14 @@ class StageTracer:
                 self.tdigests.append(_table_digest(t))
                 side = os.path.join(self.side_dir, f"w{self.k}.fits")
                 # what the table holds *now*, written by the harness the way the repo writes
-                t.copy(copy_data=True).write(side, format="fits", overwrite=True)
+                guard = getattr(self, "side_guard", None)
+                if guard:
+                    guard(False)  # an injected file-size limit is not meant for the harness's own copy
+                try:
+                    t.copy(copy_data=True).write(side, format="fits", overwrite=True)
+                finally:
+                    if guard:
+                        guard(True)
                 with open(side, "rb") as f:
                     self.sides.append(f.read())
                 os.remove(side)
@@ -172,6 +186,17 @@ class StageTracer:
                 self.last_sig = None
                 return self.local
             return self.local if fn.startswith(self.src_prefix) else None
+        if not self.reanchored and isinstance(self.box, dict) and self.box.get("driver") is not None:
+            # stages are the calls made by the frame that builds the results table; if compute()
+            # only delegates (a wrapper around the real driver), that frame is the driver
+            self.reanchored = True
+            drv = self.box["driver"]
+            if drv is not self.compute_frame and drv.f_code.co_filename.startswith(self.src_prefix):
+                self.outer_frame = self.compute_frame
+                self.compute_frame = drv
+                self.stage_frame = None
+                self.stage_names = []
+                self.spans = []
         if frame.f_back is self.compute_frame and self.stage_frame is None and not self.compute_done:
             if code.co_name in ("<genexpr>", "<listcomp>", "<lambda>") :
                 return self.local if fn.startswith(self.src_prefix) else None
@@ -265,9 +290,22 @@ def _compute_call(cfg, rng_seed, clock_s, out_path, write_stages, tracer_factory
             if tr is not None:
                 sys.settrace(tr.glob)
             try:
-                table = compute(cfg, output_file=out_path, write_stages=write_stages, **(compute_kw or {}))
+                kw = dict(compute_kw or {})
+                given = out_path
+                if kw.pop("_output_as_pathlike", False) and out_path is not None:
+                    import pathlib
+
+                    given = pathlib.Path(out_path)  # the name is the user's, and so is its type: os.PathLike
+                table = compute(cfg, output_file=given, write_stages=write_stages, **kw)
             except InjectedStageFault:
                 status = "raised-injected"
+            except (KeyboardInterrupt, SystemExit, MemoryError) as e:
+                if tr is not None and tr.fired and "injected stage failure" in str(e):
+                    status = "raised-injected"
+                elif isinstance(e, MemoryError):
+                    status = f"raised:{type(e).__name__}:{e}"[:300]
+                else:
+                    raise
             except Exception as e:  # noqa: BLE001
                 status = f"raised:{type(e).__name__}:{e}"[:300]
             finally:
@@ -476,6 +514,21 @@ def fault_run(cfg, rng_seed, clock_s, src_prefix, fault, *, write_stages=True, g
                     os.environ["TMPDIR"] = torn["tmpdir"]
                     tempfile.tempdir = None
 
+            fsz = fault if fault and fault.get("kind") == "fsize" else None
+            limit_guard = None
+            if fsz:
+                # the file system stops accepting data at byte L of any file (a quota, a file-size
+                # limit, a disk that fills up): the write that crosses L is cut SHORT — the OS
+                # reports fewer bytes written than asked — and the next one fails with EFBIG.
+                # Real kernel behaviour (RLIMIT_FSIZE), nothing patched.
+                io_mode = True
+                import resource
+
+                soft0, hard0 = resource.getrlimit(resource.RLIMIT_FSIZE)
+
+                def limit_guard(on):
+                    resource.setrlimit(resource.RLIMIT_FSIZE, (int(fsz["limit"]) if on else soft0, hard0))
+
             def make_tracer(box):
                 if io_mode:
                     active[0] = False  # the harness's own side directory is not the run's doing
@@ -484,13 +537,22 @@ def fault_run(cfg, rng_seed, clock_s, src_prefix, fault, *, write_stages=True, g
                 t = StageTracer(src_prefix, box, out or os.path.join(d, outname), fault=None if io_mode else fault, report_fd=wfd,
                                 trace_fits=trace_fits, snapshot=io_mode, side_dir=os.path.join(d, "side"))
                 tracer_box[0] = t
+                if limit_guard:
+                    t.side_guard = limit_guard
+                    limit_guard(True)
                 return t
 
-            status, table, tr = _compute_call(cfg, rng_seed, clock_s, out, write_stages, make_tracer, compute_kw)
+            try:
+                status, table, tr = _compute_call(cfg, rng_seed, clock_s, out, write_stages, make_tracer, compute_kw)
+            finally:
+                if limit_guard:
+                    limit_guard(False)
             active[0] = False
             rep = {"status": status, "k_final": tr.k, "steps": tr.steps, "fired": tr.fired, "audit": audit[:50], "rows": None}
             if io_mode:
                 rep["io"] = io["fired"]
+                if fsz:
+                    rep["io"] = {"limit": int(fsz["limit"]), "k": tr.k, "in_stage": True, "path": "(any file)", "what": f"file size limit {int(fsz['limit'])} bytes"}
                 rep["io_writes_seen"] = io["n"] if not torn else calls["n"]
                 rep["snap_absent"] = [kk for kk in range(1, tr.k + 1) if tr.snaps[kk] is None][:3]
                 # boundaries this run itself completed after the disk error: file vs its own table
